@@ -410,6 +410,13 @@ class C04(Check):
         """scorers are referred to by ORDINAL (k-th MostWorkRemainingScorer created); the store index the model
         needs is taken from the implementation's run (model_events)."""
         spec = common.gen_instance(rng, max_jobs=5, max_machines=4, max_ops=4, big=rng.random() < 0.1)
+        if rng.random() < 0.12:
+            # many short jobs with few distinct durations: ties for the maximum remaining work between jobs whose ids
+            # do not iterate in increasing order once they sit in a set (available_jobs() is list(set(...)))
+            nm = rng.randint(1, 3)
+            spec = [[[[rng.randrange(nm)], rng.choice([1, 2])] for _ in range(rng.randint(1, 2))]
+                    for _ in range(rng.randint(9, 14))]
+            self.note("session_many_jobs_with_ties")
         filters = self.gen_filters(rng)
         if filters == "default":
             filters = [0, 2]
